@@ -75,6 +75,7 @@ type Seq struct {
 	MkRealm        func(uri string) (*router.RealmConfig, *MRealm) // for addrealm steps
 	Authz          *TableAuthz                                     // the realm's Authorizer (nil: none)
 	LocalAuthz     bool                                            // RequireLocalAuthz
+	callReqs       map[int][]wamp.ID                               // session idx -> request ids of the CALLs it has sent
 	curIdx         []int                                           // slot -> index into Slots of the session currently there (-1 none)
 	deadSess       []*Sess                                         // ended sessions: must not receive anything further
 	// options
